@@ -196,6 +196,11 @@ impl Ctx {
         if let Some(o) = self.only {
             return (o == i).then_some(i);
         }
+        // a describe request only needs the described item (running the others made a description cost
+        // the whole shard's work up to it)
+        if let Some((d, _)) = self.describe {
+            return (d == i).then_some(i);
+        }
         if i as usize % self.nshards != self.shard {
             return None;
         }
@@ -758,7 +763,9 @@ pub fn run_check(def: &'static CheckDef, tier: Tier) -> i32 {
             let r = replay_cache.entry(v.idx).or_insert_with(|| replay_idx(def, tier, v.idx)).clone();
             match r {
                 Some(rv) if rv.iter().any(|x| &x.sig == sig) => {}
-                Some(_) if sig.starts_with("timeout") => {
+                Some(_) if sig.starts_with("timeout") || sig.starts_with("crash:alloc-failure") => {
+                    // (likewise the address-space cap hit by a worker whose databases had grown over many items:
+                    // the item alone stays far below it)
                     // a watchdog that fires in the loaded run but not when the item is replayed alone is the machine
                     // being busy, not a hang: the item's remaining sub-cases were cut, which makes the run non-exhaustive
                     eprintln!("note: item {} hit its watchdog ({sig}) but completes when replayed alone; counted as a cap, not a verdict", v.idx);
